@@ -5,7 +5,6 @@ package core
 import (
 	"errors"
 	"fmt"
-	"sync"
 	"testing"
 	"time"
 
@@ -328,23 +327,17 @@ func bodyC05(c c05Case, x *vkit.Ctx) {
 			msg := encUserEvent(k.lt, k.name, c05Bytes(st.Ev))
 			ppb := encPushPull(&serf.VerifMessagePushPull{Events: []*serf.VerifUserEvents{
 				{LTime: serf.LamportTime(k.lt), Events: []serf.VerifUserEvent{{Name: k.name, Payload: c05Bytes(st.Ev)}}}}})
-			start := make(chan struct{})
-			var wg sync.WaitGroup
-			wg.Add(3)
-			for g := 0; g < 3; g++ {
-				g := g
-				go func() {
-					defer wg.Done()
-					<-start
-					if g == 2 {
-						n.Delegate.MergeRemoteState(ppb, false)
-					} else {
-						n.Delegate.NotifyMsg(append([]byte(nil), msg...))
-					}
-				}()
-			}
-			close(start)
-			wg.Wait()
+			msg2 := append([]byte(nil), msg...)
+			volley(3, func(i int) {
+				switch i {
+				case 0:
+					n.Delegate.NotifyMsg(msg)
+				case 1:
+					n.Delegate.NotifyMsg(msg2)
+				default:
+					n.Delegate.MergeRemoteState(ppb, false)
+				}
+			})
 			x.Label("step:concurrent-duplicates")
 		case 3:
 			if mclock >= maxLT {
